@@ -188,7 +188,18 @@ def rule_fsm(chk):
             chk.ob("C11.fsm/ifndef-negation", False, "anchor-missing or wrong: the #ifdef/#ifndef push `Enabled iff exists XOR (command == \"ifndef\")`", where(pc))
     # unfinished chain at end of the entry file
     init = chk.anchor("C11.anchor/preprocess_initial_file", f.fn("preprocess_initial_file", PP), "preprocess_initial_file")
-    if init:
+    import c12
+    tab = c12.initial_file_table(f) if init else None
+    if isinstance(tab, dict):
+        # preprocess_initial_file walked with an entry file that leaves a given chain behind: only the empty chain is accepted
+        bad = None
+        for k, (chain, res) in tab["chains"].items():
+            want = "Ok" if not chain else "Err(ConditionChainNotFinished)"
+            if res != want:
+                bad = bad or "an entry file that ends with the chain %s (%s) gives %s, must be %s: a missing #endif is accepted when the open branch is %s" % (
+                    chain, k, res, want, "the selected one" if chain and chain[-1] == "Enabled" else "a skipped one")
+        chk.ob("C11.fsm/unterminated", bad is None, bad or "Ok only when the chain is empty after the entry file (%d chains)" % len(tab["chains"]), where(init), sample={"chains": len(tab["chains"])})
+    elif init:
         cfg = M.Cfg(init)
         err_blocks = [i for i, j, s in cfg.stmts(lambda s: s.get("r") == "Agg" and s.get("variant") == "ConditionChainNotFinished")]
         ok_blocks = [i for i, j, s in cfg.stmts(lambda s: s.get("r") == "Agg" and short(s.get("adt", "")) == "Result" and s.get("variant") == "Ok")]
